@@ -502,8 +502,18 @@ impl Sim {
     }
 
     pub fn disconnect(&mut self, i: usize) {
+        self.disconnect_with(i, false)
+    }
+
+    pub fn disconnect_with(&mut self, i: usize, late: bool) {
         if i >= self.clients.len() || !self.clients[i].connected {
             return;
+        }
+        if late {
+            for ch in 0..self.ckinds.len() {
+                while self.deliver_c2s(i, ch, 0) {}
+            }
+            self.flags.insert("disconnect_with_messages_just_received");
         }
         {
             let c = &self.clients[i];
@@ -1022,6 +1032,12 @@ impl Sim {
             Step::Disconnect { client } => {
                 if self.cfg.faults {
                     self.disconnect(client);
+                    self.flags.insert("disconnect");
+                }
+            }
+            Step::DisconnectLate { client } => {
+                if self.cfg.faults {
+                    self.disconnect_with(client, true);
                     self.flags.insert("disconnect");
                 }
             }
